@@ -40,7 +40,7 @@ func (e *Engine) instantiate(assumps []*Term, goal *Term, facts []*QFact) []*Ter
 		work = append(work, goal)
 	}
 	total := 0
-	for round := 0; round < 4 && len(work) > 0; round++ {
+	for round := 0; round < 6 && len(work) > 0; round++ {
 		var sels []*Term
 		Walk(work, func(t *Term) {
 			if t.Op == OSelect && t.S.K != SArr && !seenSel[t] {
